@@ -124,6 +124,7 @@ DecodeOne(bytes, more, mode) ==
                     IF run.need \/ run.unspec THEN run
                     ELSE LET f == run.evs[1]
                              asEsc == f.k = "mouse" \/ f.k = "cpr" \/ (f.k = "key" /\ (f.name = "esc" \/ f.name \in MetaNames \/ Take(<<f.b>>, 1) = <<1>>))
+                                  \/ (f.k = "char" /\ f.b = 1)     \* a character that already carries the meta prefix
                          IN IF asEsc THEN Res(<<KeyEv("esc")>> \o run.evs, run.used + 1)
                             ELSE IF f.k = "raw" THEN Unspec
                             ELSE Res(<<[f EXCEPT !.name = "meta " \o @, !.b = 1]>> \o Tail(run.evs), run.used + 1)
